@@ -200,6 +200,43 @@ def opConstraints (op : String) : P String := do
       return s!"ok {g} {if wg then 1 else 0} {i} {if wi then 1 else 0}"
   | _ => throw s!"unknown op {op}"
 
+/-- C05: the tuples that reach the solver, recomputed from (pool, indices) by the model -/
+def opForm : P String := do
+  let n ← nat; let t ← nat; let npool ← nat; let d ← nat
+  let pool ← arr Float (npool * d)
+  let idx ← natArr (n * t)
+  finish
+  let rows : List (Array Float) := (List.range npool).map fun r => pool.extract (r*d) (r*d+d)
+  let r := formTuples (n := n) (t := t) (some (arrayIndexer rows)) (.indices fun j i => idx.getD (j.val * t + i.val) 0)
+  match r.1 with
+  | .error e => return s!"err {e.name}"
+  | .ok v =>
+    let flat := (Array.ofFn fun j : Fin n => (Array.ofFn fun i : Fin t => v j i).flatten).flatten
+    return s!"ok {r.2} " ++ renderArr flat
+
+def optNat : P (Option Nat) := do
+  let t ← next
+  if t == "none" then return none
+  match t.toNat? with
+  | some n => return some n
+  | none => throw s!"not a natural or none: {t}"
+
+/-- C06: outcome class of the validation on an array descriptor -/
+def opCheckInput : P String := do
+  let kind ← next
+  let nd ← nat; let shape ← natArr nd
+  let ek ← next; let nan ← bool; let inf ← bool
+  let pre ← optNat; let ts ← optNat; let ms ← nat
+  finish
+  let a : ArrDesc := { shape := shape.toList, kind := if ek == "text" then .text else .numeric, hasNaN := nan, hasInf := inf }
+  let r := match kind with
+    | "classic" => checkInputClassic a pre ms
+    | "sk" => (skCheckArray a ms 1).map fun _ => a
+    | _ => checkInputTuples MLGen.checkTupleSize a pre ts ms
+  return match r with
+    | .ok b => s!"ok {b.shape}"
+    | .error e => s!"err {e.name}"
+
 def optInt : P (Option Int) := do
   let t ← next
   if t == "none" then return none
@@ -237,6 +274,8 @@ def dispatch : P String := do
   | "check_n_components" | "auto_select_init" | "check_tuple_size" => opGen op
   | "sdp_check" | "cfm_eig" | "cfm_diag" | "pinv_eig" | "init_metric" => opPsd op
   | "pairs" | "chunks" | "knn_class" | "knn_clip" => opConstraints op
+  | "form" => opForm
+  | "check_input" => opCheckInput
   | "calib" => opCalib
   | "validate_calib" => opValidateCalib
   | _ => throw s!"unknown op {op}"
